@@ -27,7 +27,7 @@ RULE = ('Histories of 1..5 operations on one FitInfo: keep(sel) with the six sel
 ASSUMPTIONS = ['FitInfo.sort order (numpy argsort, NaN last) is taken as the ranking', 'selector thresholds equal to an attained value are not judged',
                "('A', v) is used with an arbitrary v, as in the documentation"]
 PROBES = ['tie_in_chi2', 'nan_present', 'inf_present', 'zero_length_result', 'kept_zero', 'kept_all', 'kept_some', 'equal_threshold_skipped',
-          'hop_pickle', 'hop_file', 'hop_consumer', 'family_real', 'composition_checked', 'n_beyond_total', 'flags_edited_in_place', 'rejected_flag_assignment', 'hop_file_pair', 'long_ranking', 'long_relative_cut_inside', 'hop_plot_several_sources', 'plot_threshold_tuned_on_a_source']
+          'hop_pickle', 'hop_file', 'hop_consumer', 'family_real', 'composition_checked', 'n_beyond_total', 'flags_edited_in_place', 'rejected_flag_assignment', 'hop_file_pair', 'long_ranking', 'long_relative_cut_inside', 'hop_plot_several_sources', 'plot_threshold_tuned_on_a_source', 'sibling_result_selected_in_between']
 
 
 def budgets(tier):
@@ -70,7 +70,7 @@ def generate(rng, tier, idx):
         sc['with_fluxes'] = rng.random() < 0.5
     steps = []
     for _ in range(rng.randint(1, 5)):
-        op = rng.choice(['keep', 'keep', 'keep', 'keep', 'pickle', 'file', 'file_pair', 'flags', 'bad_assign'] + (['consumer', 'consumer', 'consumer'] if real else []))
+        op = rng.choice(['keep', 'keep', 'keep', 'keep', 'pickle', 'file', 'file_pair', 'flags', 'bad_assign', 'sibling'] + (['consumer', 'consumer', 'consumer'] if real else []))
         st = {'op': op}
         if op == 'file_pair':
             # the result is written twice into ONE open file, its Source edited in place between the two writes
@@ -80,6 +80,11 @@ def generate(rng, tier, idx):
             # the user edits the flags of the result's Source IN PLACE between two selections
             st['k'] = rng.randrange(12)
             st['v'] = rng.choice([0, 1, 2, 3, 4, 9])
+        if op == 'sibling':
+            # the same process selects on ANOTHER result in between (with / without stored fluxes, other length)
+            st['sel'] = _gen_sel(rng)
+            st['n'] = rng.randint(0, 6)
+            st['with_fluxes'] = rng.random() < 0.5
         if op in ('keep', 'consumer'):
             st['sel'] = _gen_sel(rng)
         if op == 'consumer' and rng.random() < 0.5:
@@ -261,6 +266,12 @@ def _execute(sc, sim, out):
                 nd = n_data_of(info.source.valid)
                 out.probe('flags_edited_in_place')
             trace.append((op,))
+            continue
+        if op == 'sibling':
+            sib = _build_synthetic({'chi_idx': list(range(st['n'])), 'valid': [1, 4], 'with_fluxes': st['with_fluxes']})
+            pipe.call(sib.keep, tuple(st['sel']))
+            out.probe('sibling_result_selected_in_between')
+            trace.append((op, st['with_fluxes']))
             continue
         if op == 'bad_assign':
             try:
